@@ -564,32 +564,33 @@ Definition time_ok (t : ztime) : bool := match t with TStrBad | TOther => false 
 
 Definition e_json : error := e_unmarshal "json parse error".
 
-(* decodeSpan: returns the ids seen (updated decoder state) or an error. prev = ids left in the decoder
-   by the previous line (ND decoder: never reset; array decoder: reset to nil) *)
-Definition decode_zspan (prev : N * N) (s : zspan) : (N * N) + error :=
+(* decodeSpan: returns the widths of the ids seen (0 = nil) or an error. Both decoders reset their state
+   before every span (array decoder: always; ND decoder: since 15d1fa4), so nothing is inherited. *)
+Definition decode_zspan (s : zspan) : (N * N) + error :=
   match decode_hex (z_tid s) 32, decode_hex (z_sid s) 16, decode_hex (z_pid s) 16 with
   | HexErr, _, _ | _, HexErr, _ | _, _, HexErr => inr e_json
   | t, i, _ =>
       if time_ok (z_ts s) && time_ok (z_dur s)
-      then inl (match t with HexBytes n => n | _ => fst prev end, match i with HexBytes n => n | _ => snd prev end)
+      then inl (match t with HexBytes n => n | _ => 0%N end, match i with HexBytes n => n | _ => 0%N end)
       else inr e_json
   end.
 
 Definition zspan_in (ids : N * N) : span_in :=
   {| si_tid := fst ids; si_sid := snd ids; si_keys := 4; si_bytes := 400; si_abytes := 240 |}.
 
-Fixpoint zipkin_events (nd : bool) (prev : N * N) (spans : list zspan) : list span_event :=
+(* nd: newline-delimited decoder (one object per line) or array decoder: same per-span logic *)
+Fixpoint zipkin_events (nd : bool) (spans : list zspan) : list span_event :=
   match spans with
   | [] => []
   | s :: rest =>
-      match decode_zspan (if nd then prev else (0, 0)%N) s with
+      match decode_zspan s with
       | inr e => [EvErr e]
-      | inl ids => EvSpan (zspan_in ids) :: zipkin_events nd ids rest
+      | inl ids => EvSpan (zspan_in ids) :: zipkin_events nd rest
       end
   end.
 
 Definition zipkin_outcome (nd : bool) (spans : list zspan) : cls :=
-  cls_of_parse (fst (do_parse ctx_traces world0 false (parse_spans span_st0 (zipkin_events nd (0, 0)%N spans)))).
+  cls_of_parse (fst (do_parse ctx_traces world0 false (parse_spans span_st0 (zipkin_events nd spans)))).
 
 (* ---- OTLP traces ---- *)
 Record ospan := { o_tid : N; o_sid : N; o_nilattr : bool }.
